@@ -290,7 +290,7 @@ pub fn run(env: &Env, known: &Known, started: Instant, replayed: u64, replay_vio
     stats.counters.insert("keyword_case_variants".into(), kw);
 
     // (3) sampled 6/8 digit hex and near misses through the choice runner (shrinks failures)
-    let cfg = ChoiceRun { env, pid: PID, part: "long-hex", cases: env.tier.pick(200_000, 4_000_000), max_len: 12, known };
+    let cfg = ChoiceRun { env, pid: PID, part: "long-hex", cases: env.tier.pick(1_000_000, 4_000_000), max_len: 12, known };
     let rr = run_choices(&cfg, |ch| {
         let n = if ch.chance(1, 2) { 8 } else { 6 };
         let s: String = std::iter::once('#').chain((0..n).map(|_| { let c = HEX[ch.below(16)] as char; if ch.chance(1, 4) { c.to_ascii_uppercase() } else { c } })).collect();
@@ -304,7 +304,7 @@ pub fn run(env: &Env, known: &Known, started: Instant, replayed: u64, replay_vio
     stats.merge(rr.stats);
     violations.extend(rr.violations);
 
-    let cfg = ChoiceRun { env, pid: PID, part: "near-miss", cases: env.tier.pick(60_000, 1_500_000), max_len: 24, known };
+    let cfg = ChoiceRun { env, pid: PID, part: "near-miss", cases: env.tier.pick(400_000, 1_500_000), max_len: 24, known };
     let rr = run_choices(&cfg, |ch| {
         let s = near_miss(ch);
         match check_string(&s) {
@@ -316,7 +316,7 @@ pub fn run(env: &Env, known: &Known, started: Instant, replayed: u64, replay_vio
     violations.extend(rr.violations);
 
     // (4) end to end through the .ui on a sample of all families
-    let cfg = ChoiceRun { env, pid: PID, part: "end-to-end", cases: env.tier.pick(3_000, 60_000), max_len: 24, known };
+    let cfg = ChoiceRun { env, pid: PID, part: "end-to-end", cases: env.tier.pick(12_000, 60_000), max_len: 24, known };
     let names: Vec<&String> = table().keys().collect();
     let rr = run_choices(&cfg, |ch| {
         let s = match ch.below(5) {
